@@ -7,6 +7,7 @@ import (
 	"fmt"
 	"go/ast"
 	"go/types"
+	"strings"
 
 	"golang.org/x/tools/go/types/typeutil"
 )
@@ -103,4 +104,197 @@ func RunDiscard(c *Ctx, prop string, pkgs []string) {
 		c.R.Obl(Obligation{Rule: "E5.R-discard", Func: fi.Name, Construct: "no dropped error values", Pos: c.P.Position(fi.Pos()), Discharged: true, Nontrivial: false, Ctl: fi.Ctl})
 	}
 	_ = n
+}
+
+// ------------------------------------------------------------------------------------------------
+// R-storage (C10): no error of a call into the pluggable storage is dropped, and nothing is granted on its error edge.
+
+var storageDeclFiles = map[string]bool{"storage.go": true, "keys.go": true, "discovery.go": true, "verifier_jwt_profile.go": true, "probes.go": false}
+
+func isStorageMethod(c *Ctx, fn *types.Func) bool {
+	if fn == nil || fn.Pkg() == nil || shortPkg(fn.Pkg().Path()) != "op" {
+		return false
+	}
+	sig, _ := fn.Type().(*types.Signature)
+	if sig == nil || sig.Recv() == nil || !types.IsInterface(sig.Recv().Type()) {
+		return false
+	}
+	file := c.P.Fset.Position(fn.Pos()).Filename
+	base := file[strings.LastIndex(file, "/")+1:]
+	return storageDeclFiles[base]
+}
+
+// grant sinks: calls that issue tokens or deliver a success document
+var grantSinkCalls = map[string]bool{
+	"op.CreateTokenResponse": true, "op.CreateAccessToken": true, "op.CreateIDToken": true, "op.CreateJWT": true, "op.CreateBearerToken": true,
+	"op.CreateDeviceTokenResponse": true, "op.CreateJWTTokenResponse": true, "op.CreateClientCredentialsTokenResponse": true, "op.CreateTokenExchangeResponse": true,
+	"op.AuthResponse": true, "op.AuthResponseCode": true, "op.AuthResponseToken": true, "op.AuthResponseFormPost": true, "op.RedirectToLogin": true,
+	"op.NewResponse": true, "crypto.Sign": true,
+}
+
+type storageException struct{ fn, call, why string }
+
+var storageFallbacks = []storageException{
+	{"op.GetTokenIDAndSubjectFromToken", "TokenRequestByRefreshToken", "a refresh token unknown to the storage falls through to the storage's own TokenExchangeTokensVerifierStorage; success then rests on that second, successful storage call"},
+	{"op.(*LegacyServer).Introspect", "SetIntrospectionFromToken", "the still-inactive response (Active is never set on this edge, C08) is returned: 'inactive' is the mandated answer"},
+}
+
+func RunStorageErrors(c *Ctx) {
+	e := c.e1()
+	allowed := map[string]string{}
+	usedAllowed := map[string]bool{}
+	for _, x := range storageFallbacks {
+		allowed[x.fn+"|"+x.call] = x.why
+	}
+	nCalls := 0
+	for _, fi := range c.P.Funcs {
+		if fi.Body == nil || (shortPkg(fi.Pkg.PkgPath) != "op" && !fi.Ctl) {
+			continue
+		}
+		info := fi.Pkg.TypesInfo
+		// 1. dropped storage errors (expression statements / blank assignments)
+		pm := buildParents(fi.Body)
+		type scall struct {
+			call *ast.CallExpr
+			fn   *types.Func
+		}
+		var calls []scall
+		ast.Inspect(fi.Body, func(n ast.Node) bool {
+			if lit, ok := n.(*ast.FuncLit); ok && lit != fi.Lit {
+				return false
+			}
+			call, ok := n.(*ast.CallExpr)
+			if !ok {
+				return true
+			}
+			fn, _ := typeutil.Callee(info, call).(*types.Func)
+			if fn == nil || (!isStorageMethod(c, fn) && !(fi.Ctl && fn.Name() == "ctlStorageCall")) {
+				return true
+			}
+			calls = append(calls, scall{call, fn})
+			return true
+		})
+		if len(calls) == 0 {
+			continue
+		}
+		var f *e1func
+		for _, sc := range calls {
+			sig := sc.fn.Type().(*types.Signature)
+			sidx, _ := statusIndex(sig)
+			hasErr := false
+			for i := 0; i < sig.Results().Len(); i++ {
+				if isErrorType(sig.Results().At(i).Type()) {
+					hasErr = true
+					sidx = i
+				}
+			}
+			if !hasErr {
+				continue
+			}
+			nCalls++
+			construct := "storage call " + sc.fn.Name()
+			pos := c.P.Position(sc.call.Pos())
+			// how is the result consumed?
+			dropped := ""
+			switch p := pm[sc.call].(type) {
+			case *ast.ExprStmt:
+				dropped = "its results are discarded"
+			case *ast.AssignStmt:
+				if len(p.Rhs) == 1 && sidx < len(p.Lhs) {
+					if id, ok := p.Lhs[sidx].(*ast.Ident); ok && id.Name == "_" {
+						dropped = "its error is assigned to the blank identifier"
+					}
+				}
+			case *ast.GoStmt, *ast.DeferStmt:
+				dropped = "it runs in a go/defer statement and its error is lost"
+			}
+			if dropped != "" {
+				c.R.Obl(Obligation{Rule: "E5.R-storage", Func: fi.Name, Construct: construct + " (error consumed)", Pos: pos, Discharged: false, Nontrivial: true, Ctl: fi.Ctl})
+				c.R.Find(Finding{Rule: "E5.R-storage", Func: fi.Name, Construct: "dropped error of " + construct, Pos: pos,
+					Msg: fmt.Sprintf("the error of %s is dropped (%s): a storage failure at this point would go unnoticed", types.ExprString(sc.call), dropped), Ctl: fi.Ctl})
+				continue
+			}
+			// 2. nothing is granted on the error edge
+			if f == nil {
+				f = e.analyse(fi)
+			}
+			ct := f.tb.callTerm(sc.call)
+			failKey := fact("fail", ct).Key()
+			var bad *e1site
+			var badState *fstate
+			for _, s := range f.sites {
+				isSink := false
+				switch s.kind {
+				case "call":
+					isSink = grantSinkCalls[s.term.S] && s.term.K == "call"
+					if s.term.K == "call" && s.term.S == "httphelper.MarshalJSON" && len(s.term.A) == 2 && s.term.A[1].K != "nil" {
+						isSink = true
+						// the introspection document is inactive unless Active was stored (its own sink)
+						if ce, ok := s.node.(*ast.CallExpr); ok && len(ce.Args) == 2 {
+							if t := info.TypeOf(ce.Args[1]); t != nil && strings.HasSuffix(typeStr(t), "oidc.IntrospectionResponse") {
+								isSink = false
+							}
+						}
+					}
+				case "store":
+					if len(s.term.A) == 2 && s.term.A[0].K == "sel" && s.term.A[0].S == "Active" && s.term.A[1].K == "const" && s.term.A[1].S == "true" {
+						isSink = true
+					}
+				case "ret":
+					isSink = f.errIdx >= 0 // success returns of status-returning functions (checked per state below)
+					// an error redirect to the validated redirect URI is one of the permitted error answers
+					if len(s.term.A) > 0 && s.term.A[0].K == "res" && len(s.term.A[0].A) == 1 && s.term.A[0].A[0].K == "call" && s.term.A[0].A[0].S == "op.TryErrorRedirect" {
+						isSink = false
+					}
+				}
+				if !isSink {
+					continue
+				}
+				for i, st := range s.states {
+					if s.kind == "ret" && !s.ok[i] {
+						continue
+					}
+					if _, failed := st.facts[failKey]; !failed {
+						continue
+					}
+					// sentinel-classified errors (errors.Is(err, X) edge) are an explicit decision of the code
+					sentinel := false
+					for _, fc := range st.facts {
+						if fc.S == "errIs" && len(fc.A) == 2 && fc.A[0].Key() == ct.Key() {
+							sentinel = true
+						}
+					}
+					if sentinel {
+						continue
+					}
+					bad, badState = s, st
+					break
+				}
+				if bad != nil {
+					break
+				}
+			}
+			ak := fi.Name + "|" + sc.fn.Name()
+			if bad != nil {
+				if why, ok := allowed[ak]; ok {
+					usedAllowed[ak] = true
+					c.R.Obl(Obligation{Rule: "E5.R-storage", Func: fi.Name, Construct: construct + " (reviewed fallback)", Pos: pos, Discharged: true, Nontrivial: true, How: []string{why}, Ctl: fi.Ctl})
+					continue
+				}
+				c.R.Obl(Obligation{Rule: "E5.R-storage", Func: fi.Name, Construct: construct + " (error edge grants nothing)", Pos: pos, Discharged: false, Nontrivial: true, Ctl: fi.Ctl})
+				c.R.Find(Finding{Rule: "E5.R-storage", Func: fi.Name, Construct: "grant on the error edge of " + construct, Pos: c.P.Position(bad.pos),
+					Msg:  fmt.Sprintf("after %s failed, `%s` is still reachable in %s: a storage failure must end the request with an error and grant nothing", types.ExprString(sc.call), bad.term, fi.Name),
+					Path: append([]string{"entry"}, append(badState.trail(), "sink@"+c.P.Position(bad.pos))...), Ctl: fi.Ctl})
+				continue
+			}
+			c.R.Obl(Obligation{Rule: "E5.R-storage", Func: fi.Name, Construct: construct + " (error edge grants nothing)", Pos: pos, Discharged: true, Nontrivial: true,
+				How: []string{"no token-creating call, success document, Active=true store or success return is reachable in a path state carrying fail(" + ct.String() + ")"}, Ctl: fi.Ctl})
+		}
+	}
+	c.R.Extra["storage_call_sites"] = nCalls
+	for k := range allowed {
+		if !usedAllowed[k] {
+			c.R.Extra["storage_fallback_unused:"+k] = true
+		}
+	}
 }
